@@ -16,7 +16,22 @@ from .common import Check
 PROP = "C17"
 
 
+INF, NAN_ = float("inf"), float("nan")
+NONFINITE = {
+    "point": [[INF, -INF], [NAN_, INF], [-INF, -INF]],
+    "multipoint": [[INF, INF], [INF, -INF, NAN_, INF]],
+    "line": [[INF, INF, -INF, NAN_], [-INF, -INF, -INF, -INF]],
+    "ring": [[INF, INF, -INF, INF, INF, -INF, INF, INF]],
+    "multiline": [[[INF, NAN_, INF, INF]], [[INF, INF, INF, INF], [-INF, -INF]]],
+    "polygon": [[[INF, INF, -INF, INF, INF, -INF, INF, INF]]],
+    "multipolygon": [[[[INF, INF, -INF, INF, INF, -INF, INF, INF]]]],
+}
+
+
 def inert_element(kind, r):
+    """missing, empty, or present without any finite coordinate"""
+    if r.random() < 0.25:
+        return r.choice(NONFINITE[kind])
     if kind == "point":
         return r.choice((None, [float("nan"), float("nan")]))
     return r.choice((None, []))
